@@ -53,6 +53,60 @@ Proof.
   apply pack_size_fold_fits. lia.
 Qed.
 
+(* more on the checked pack size: Some exactly when the unbounded size fits u32 *)
+Lemma pack_size_fold_lt : forall bs a0 r,
+  fold_left pack_size_step bs (Some a0) = Some r -> a0 < U32 -> r < U32.
+Proof.
+  induction bs as [|b bs IH]; intros a0 r H Ha; cbn [fold_left] in H.
+  - inv H. assumption.
+  - unfold pack_size_step at 2 in H.
+    destruct (u32_add a0 (len (bloc b))) as [a1|] eqn:E1; [|rewrite pack_size_fold_none in H; discriminate].
+    destruct (u32_add a1 (entry_len b)) as [a2|] eqn:E2; [|rewrite pack_size_fold_none in H; discriminate].
+    apply u32_add_some in E2. eapply IH; [exact H|lia].
+Qed.
+
+Lemma pack_size_some_fits : forall p s, pack_size p = Some s -> size_fits p = true.
+Proof.
+  intros p s H. pose proof (pack_size_is_spec p s H) as Hs. unfold size_fits, pack_size, pack_size_computed in *.
+  destruct (psize p); [reflexivity|].
+  destruct (u32_add COMP_OVERHEAD LENGTH_LEN) as [a|] eqn:E; [|rewrite pack_size_fold_none in H; discriminate].
+  apply u32_add_some in E. apply pack_size_fold_lt in H; lia.
+Qed.
+
+Lemma pack_size_fits_iff : forall p, size_fits p = true <-> exists s, pack_size p = Some s.
+Proof.
+  intro p. split; [intro H; eexists; apply pack_size_fits; assumption|].
+  intros (s & H). eapply pack_size_some_fits; eassumption.
+Qed.
+
+(* ------------------------------------------------------------------ the release build *)
+Lemma wadd_mod : forall a b, u32_wadd (a mod U32) b = (a + b) mod U32.
+Proof. intros a b. unfold u32_wadd. rewrite N.add_mod_idemp_l by (unfold U32; lia). reflexivity. Qed.
+
+Lemma wrapping_fold : forall bs a0,
+  fold_left (fun a b => u32_wadd (u32_wadd a (len (bloc b))) (entry_len b)) bs (a0 mod U32)
+  = (a0 + blobs_size bs) mod U32.
+Proof.
+  induction bs as [|b bs IH]; intro a0; cbn [fold_left blobs_size fold_right].
+  - f_equal. lia.
+  - fold (blobs_size bs). rewrite !wadd_mod, IH. f_equal. lia.
+Qed.
+
+Lemma pack_size_wrapping_char : forall p, pack_size_wrapping p = size_release p.
+Proof.
+  intro p. unfold pack_size_wrapping, size_release, size_spec, pack_size_wrapping_computed.
+  destruct (psize p); [reflexivity|].
+  unfold u32_wadd at 3. apply wrapping_fold.
+Qed.
+
+(* the two builds compute the same size whenever the checked build does not panic *)
+Lemma pack_size_builds_agree : forall p s, pack_size p = Some s -> pack_size_wrapping p = s.
+Proof.
+  intros p s H. rewrite pack_size_wrapping_char. pose proof (pack_size_some_fits p s H) as Hf.
+  apply pack_size_is_spec in H. subst s. unfold size_release, size_fits, size_spec in *.
+  destruct (psize p); [reflexivity|]. apply N.mod_small. lia.
+Qed.
+
 (* ------------------------------------------------------------------ entries of a pack list *)
 Fixpoint entries_of (k : nat) (qs : list ipack) : list sentry :=
   match qs with
@@ -68,17 +122,6 @@ Definition app_entries (e : entries) (k : nat) (qs : list ipack) : entries :=
   | EFull l => EFull (l ++ entries_of k qs)
   end.
 
-Definition tc_after (tc0 : tcoll) (qs : list ipack) (tc : tcoll) : Prop :=
-  c_packs tc = c_packs tc0 ++ map (fun p => (pid p, size_spec p)) qs /\
-  c_entries tc = app_entries (c_entries tc0) (length (c_packs tc0)) qs /\
-  c_total tc = c_total tc0 + sum_sizes qs.
-
-Lemma tc_after_nil : forall tc, tc_after tc [] tc.
-Proof.
-  intro tc. unfold tc_after. cbn. rewrite app_nil_r. repeat split; try lia.
-  destruct (c_entries tc); cbn; rewrite ?app_nil_r; reflexivity.
-Qed.
-
 Lemma bget_bset_same : forall A (m : btmap A) t v, bget (bset m t v) t = v.
 Proof. intros A m [] v; reflexivity. Qed.
 Lemma bget_bset_other : forall A (m : btmap A) t t' v, t <> t' -> bget (bset m t v) t' = bget m t'.
@@ -88,61 +131,6 @@ Proof. intros [] []; simpl; split; congruence. Qed.
 Lemma bt_eqb_refl : forall a, bt_eqb a a = true.
 Proof. intros []; reflexivity. Qed.
 
-Lemma extend_none : forall ps, fold_left extend_step ps None = None.
-Proof. induction ps; simpl; auto. Qed.
-
-Lemma extend_char : forall ps c0 c, extend c0 ps = Some c ->
-  forall t, tc_after (bget c0 t) (packs_of_type t ps) (bget c t).
-Proof.
-  unfold extend. induction ps as [|p ps IH]; intros c0 c H t; cbn [fold_left] in H.
-  - inv H. apply tc_after_nil.
-  - cbn [extend_step] in H. destruct (extend_one c0 p) as [c1|] eqn:E1;
-      [|rewrite extend_none in H; discriminate].
-    specialize (IH c1 c H t). clear H.
-    unfold extend_one in E1. destruct (pack_size p) as [sz|] eqn:Es; [|discriminate].
-    apply pack_size_is_spec in Es. subst sz.
-    destruct (N.of_nat _ <? U32) eqn:El; [|discriminate]. inv E1.
-    cbn [packs_of_type filter]. fold (packs_of_type t ps).
-    destruct (bt_eqb (pack_type p) t) eqn:Et.
-    + apply bt_eqb_eq in Et. subst t. rewrite bget_bset_same in IH.
-      destruct IH as (I1 & I2 & I3). cbn [c_packs c_entries c_total] in *.
-      unfold tc_after. cbn [map sum_sizes fold_right]. fold (sum_sizes (packs_of_type (pack_type p) ps)).
-      split; [|split].
-      * rewrite I1, <- app_assoc. reflexivity.
-      * rewrite I2. rewrite app_length. cbn [length]. replace (_ + 1)%nat with (S (length (c_packs (bget c0 (pack_type p))))) by lia.
-        destruct (c_entries (bget c0 (pack_type p))); cbn [app_entries entries_of ids_of flat_map];
-          rewrite <- ?app_assoc; reflexivity.
-      * rewrite I3. lia.
-    + rewrite bget_bset_other in IH; [exact IH|].
-      intro Hc. subst t. rewrite bt_eqb_refl in Et. discriminate.
-Qed.
-
-(* loading file by file = extending with the concatenation *)
-Lemma extend_app : forall ps qs c, extend c (ps ++ qs) =
-  match extend c ps with Some c1 => extend c1 qs | None => None end.
-Proof.
-  unfold extend. intros. rewrite fold_left_app.
-  destruct (fold_left extend_step ps (Some c)); [reflexivity|apply extend_none].
-Qed.
-
-Lemma load_none : forall fs, fold_left load_step fs None = None.
-Proof. induction fs; simpl; auto. Qed.
-
-Lemma collect_is_extend : forall files c,
-  fold_left load_step files (Some c) = extend c (flat_map loaded_packs files).
-Proof.
-  induction files as [|f fs IH]; intro c; cbn [fold_left flat_map].
-  - reflexivity.
-  - rewrite extend_app. cbn [load_step]. destruct (extend c (loaded_packs f)); [apply IH|apply load_none].
-Qed.
-
-Lemma loaded_is_unmarked : forall files, flat_map loaded_packs files = unmarked files.
-Proof.
-  intro files. unfold unmarked. apply flat_map_ext. intro f. unfold loaded_packs.
-  cbn. apply app_nil_r.
-Qed.
-
-(* the collector after loading *)
 Definition mode_entries (m : imode) (t : blob_type) (qs : list ipack) : entries :=
   match t, m with
   | Tree, _ => EFull (entries_of 0 qs)
@@ -151,46 +139,167 @@ Definition mode_entries (m : imode) (t : blob_type) (qs : list ipack) : entries 
   | Data, OnlyTrees => ENone
   end.
 
-Lemma collect_char : forall m files c, collect m files = Some c ->
-  forall t, let qs := packs_of_type t (unmarked files) in
-    c_packs (bget c t) = map (fun p => (pid p, size_spec p)) qs /\
-    c_entries (bget c t) = mode_entries m t qs /\
-    c_total (bget c t) = sum_sizes qs.
+(* Generic in the build (psz: pack-size function, sz: the size it yields when it yields one,
+   fits: when it yields one) and in the loader (ld: sections of a file fed to the collector). *)
+#[local] Set Default Proof Using "All".
+Section Gen.
+  Variable psz : ipack -> option N.
+  Variable sz : ipack -> N.
+  Variable fits : ipack -> bool.
+  Hypothesis psz_sz : forall p s, psz p = Some s -> s = sz p.
+  Hypothesis psz_fits : forall p, fits p = true <-> exists s, psz p = Some s.
+  Variable ld : ifile -> list ipack.
+
+  Definition tc_after (tc0 : tcoll) (qs : list ipack) (tc : tcoll) : Prop :=
+    c_packs tc = c_packs tc0 ++ map (fun p => (pid p, sz p)) qs /\
+    c_entries tc = app_entries (c_entries tc0) (length (c_packs tc0)) qs /\
+    c_total tc = c_total tc0 + sum_sizes_by sz qs.
+
+  Lemma tc_after_nil : forall tc, tc_after tc [] tc.
+  Proof.
+    intro tc. unfold tc_after. cbn. rewrite app_nil_r. repeat split; try lia.
+    destruct (c_entries tc); cbn; rewrite ?app_nil_r; reflexivity.
+  Qed.
+
+  Lemma extend_none : forall ps, fold_left (extend_step_with psz) ps None = None.
+  Proof. induction ps; simpl; auto. Qed.
+
+  Lemma extend_char : forall ps c0 c, extend_with psz c0 ps = Some c ->
+    forall t, tc_after (bget c0 t) (packs_of_type t ps) (bget c t).
+  Proof.
+    unfold extend_with. induction ps as [|p ps IH]; intros c0 c H t; cbn [fold_left] in H.
+    - inv H. apply tc_after_nil.
+    - cbn [extend_step_with] in H. destruct (extend_one_with psz c0 p) as [c1|] eqn:E1;
+        [|rewrite extend_none in H; discriminate].
+      specialize (IH c1 c H t). clear H.
+      unfold extend_one_with in E1. destruct (psz p) as [s|] eqn:Es; [|discriminate].
+      apply psz_sz in Es. subst s.
+      destruct (N.of_nat _ <? U32) eqn:El; [|discriminate]. inv E1.
+      cbn [packs_of_type filter]. fold (packs_of_type t ps).
+      destruct (bt_eqb (pack_type p) t) eqn:Et.
+      + apply bt_eqb_eq in Et. subst t. rewrite bget_bset_same in IH.
+        destruct IH as (I1 & I2 & I3). cbn [c_packs c_entries c_total] in *.
+        unfold tc_after. cbn [map sum_sizes_by fold_right]. fold (sum_sizes_by sz (packs_of_type (pack_type p) ps)).
+        split; [|split].
+        * rewrite I1, <- app_assoc. reflexivity.
+        * rewrite I2. rewrite app_length. cbn [length]. replace (_ + 1)%nat with (S (length (c_packs (bget c0 (pack_type p))))) by lia.
+          destruct (c_entries (bget c0 (pack_type p))); cbn [app_entries entries_of ids_of flat_map];
+            rewrite <- ?app_assoc; reflexivity.
+        * rewrite I3. lia.
+      + rewrite bget_bset_other in IH; [exact IH|].
+        intro Hc. subst t. rewrite bt_eqb_refl in Et. discriminate.
+  Qed.
+
+  (* two extend calls in a row = one extend with the concatenation *)
+  Lemma extend_app : forall ps qs c, extend_with psz c (ps ++ qs) =
+    match extend_with psz c ps with Some c1 => extend_with psz c1 qs | None => None end.
+  Proof.
+    unfold extend_with. intros. rewrite fold_left_app.
+    destruct (fold_left (extend_step_with psz) ps (Some c)); [reflexivity|apply extend_none].
+  Qed.
+
+  Lemma load_none : forall fs, fold_left (load_step_with psz ld) fs None = None.
+  Proof. induction fs; simpl; auto. Qed.
+
+  Lemma collect_is_extend : forall files c,
+    fold_left (load_step_with psz ld) files (Some c) = extend_with psz c (flat_map ld files).
+  Proof.
+    induction files as [|f fs IH]; intro c; cbn [fold_left flat_map].
+    - reflexivity.
+    - rewrite extend_app. cbn [load_step_with]. destruct (extend_with psz c (ld f)); [apply IH|apply load_none].
+  Qed.
+
+  Lemma collect_char : forall m files c, collect_gen psz ld m files = Some c ->
+    forall t, let qs := packs_of_type t (flat_map ld files) in
+      c_packs (bget c t) = map (fun p => (pid p, sz p)) qs /\
+      c_entries (bget c t) = mode_entries m t qs /\
+      c_total (bget c t) = sum_sizes_by sz qs.
+  Proof.
+    intros m files c H t qs. unfold collect_gen in H. rewrite collect_is_extend in H.
+    destruct (extend_char _ _ _ H t) as (I1 & I2 & I3). fold qs in I1, I2, I3.
+    split; [|split].
+    - rewrite I1. destruct t; reflexivity.
+    - rewrite I2. destruct t, m; reflexivity.
+    - rewrite I3. destruct t; cbn; lia.
+  Qed.
+
+  (* definedness: exactly when every size is defined and the pack counters fit *)
+  Lemma extend_defined : forall ps c0,
+    forallb fits ps = true ->
+    (forall t, N.of_nat (length (c_packs (bget c0 t)) + length (packs_of_type t ps)) <= U32) ->
+    exists c, extend_with psz c0 ps = Some c.
+  Proof.
+    unfold extend_with. induction ps as [|p ps IH]; intros c0 Hf Hl; cbn [fold_left].
+    - eexists; reflexivity.
+    - cbn [forallb] in Hf. apply andb_prop in Hf. destruct Hf as (Hp & Hf).
+      cbn [extend_step_with]. unfold extend_one_with.
+      destruct (proj1 (psz_fits p) Hp) as (s & ->).
+      pose proof (Hl (pack_type p)) as Hlp. cbn [packs_of_type filter] in Hlp.
+      rewrite bt_eqb_refl in Hlp. cbn [length] in Hlp.
+      destruct (N.of_nat (length (c_packs (bget c0 (pack_type p)))) <? U32) eqn:E; [|lia].
+      apply IH; [assumption|].
+      intro t. specialize (Hl t). cbn [packs_of_type filter] in Hl. fold (packs_of_type t ps) in Hl.
+      destruct (bt_eqb (pack_type p) t) eqn:Et.
+      + apply bt_eqb_eq in Et. subst t. rewrite bget_bset_same. cbn [c_packs]. rewrite app_length.
+        cbn [length] in *. lia.
+      + rewrite bget_bset_other; [exact Hl|].
+        intro Hc. subst t. rewrite bt_eqb_refl in Et. discriminate.
+  Qed.
+
+  Lemma extend_defined_conv : forall ps c0 c,
+    (forall t, N.of_nat (length (c_packs (bget c0 t))) <= U32) ->
+    extend_with psz c0 ps = Some c ->
+    forallb fits ps = true /\
+    (forall t, N.of_nat (length (c_packs (bget c0 t)) + length (packs_of_type t ps)) <= U32).
+  Proof.
+    unfold extend_with. induction ps as [|p ps IH]; intros c0 c H0 H; cbn [fold_left] in H.
+    - split; [reflexivity|]. intro t. specialize (H0 t). cbn. lia.
+    - cbn [extend_step_with] in H. destruct (extend_one_with psz c0 p) as [c1|] eqn:E1;
+        [|rewrite extend_none in H; discriminate].
+      unfold extend_one_with in E1. destruct (psz p) as [s|] eqn:Es; [|discriminate].
+      destruct (N.of_nat _ <? U32) eqn:El; [|discriminate]. inv E1.
+      match type of H with fold_left _ _ (Some ?cc) = _ => set (c1 := cc) in * end.
+      assert (H1 : forall t, N.of_nat (length (c_packs (bget c1 t))) <= U32).
+      { intro t. subst c1. destruct (bt_eqb (pack_type p) t) eqn:Et.
+        - apply bt_eqb_eq in Et. subst t. rewrite bget_bset_same. cbn [c_packs]. rewrite app_length. cbn [length]. lia.
+        - rewrite bget_bset_other; [apply H0|]. intro Hc. subst t. rewrite bt_eqb_refl in Et. discriminate. }
+      destruct (IH c1 c H1 H) as (Hf & Hl). split.
+      + cbn [forallb]. rewrite Hf. rewrite (proj2 (psz_fits p)) by eauto. reflexivity.
+      + intro t. specialize (Hl t). cbn [packs_of_type filter]. fold (packs_of_type t ps). subst c1.
+        destruct (bt_eqb (pack_type p) t) eqn:Et.
+        * apply bt_eqb_eq in Et. subst t. rewrite bget_bset_same in Hl. cbn [c_packs] in Hl.
+          rewrite app_length in Hl. cbn [length] in *. lia.
+        * rewrite bget_bset_other in Hl; [exact Hl|]. intro Hc. subst t. rewrite bt_eqb_refl in Et. discriminate.
+  Qed.
+
+  Lemma collect_defined_iff : forall m files,
+    (exists c, collect_gen psz ld m files = Some c) <->
+    (forallb fits (flat_map ld files) = true /\
+     forall t, N.of_nat (length (packs_of_type t (flat_map ld files))) <= U32).
+  Proof.
+    intros m files. unfold collect_gen. rewrite collect_is_extend. split.
+    - intros (c & H). apply extend_defined_conv in H.
+      + destruct H as (Hf & Hl). split; [assumption|]. intro t. specialize (Hl t).
+        destruct t, m; cbn in Hl; lia.
+      + intro t. destruct t, m; cbn; unfold U32; lia.
+    - intros (Hf & Hl). apply extend_defined; [assumption|].
+      intro t. specialize (Hl t). destruct t, m; cbn; lia.
+  Qed.
+End Gen.
+
+Lemma loaded_is_unmarked : forall files, flat_map loaded_packs files = unmarked files.
 Proof.
-  intros m files c H t qs. unfold collect in H. rewrite collect_is_extend, loaded_is_unmarked in H.
-  destruct (extend_char _ _ _ H t) as (I1 & I2 & I3). fold qs in I1, I2, I3.
-  split; [|split].
-  - rewrite I1. destruct t; reflexivity.
-  - rewrite I2. destruct t, m; reflexivity.
-  - rewrite I3. destruct t; cbn; lia.
+  intro files. unfold unmarked. apply flat_map_ext. intro f. unfold loaded_packs.
+  cbn. apply app_nil_r.
 Qed.
 
-(* definedness: no overflow => the collector exists *)
-Lemma extend_defined : forall ps c0,
-  forallb size_fits ps = true ->
-  (forall t, N.of_nat (length (c_packs (bget c0 t)) + length ps) <= U32) ->
-  exists c, extend c0 ps = Some c.
-Proof.
-  unfold extend. induction ps as [|p ps IH]; intros c0 Hf Hl; cbn [fold_left].
-  - eexists; reflexivity.
-  - cbn [forallb] in Hf. apply andb_prop in Hf. destruct Hf as (Hp & Hf).
-    cbn [extend_step]. unfold extend_one. rewrite (pack_size_fits p Hp).
-    pose proof (Hl (pack_type p)) as Hlp. cbn [length] in Hlp.
-    destruct (N.of_nat (length (c_packs (bget c0 (pack_type p)))) <? U32) eqn:E; [|lia].
-    apply IH; [assumption|].
-    intro t. destruct (bt_eqb (pack_type p) t) eqn:Et.
-    + apply bt_eqb_eq in Et. subst t. rewrite bget_bset_same. cbn [c_packs]. rewrite app_length. cbn [length]. lia.
-    + rewrite bget_bset_other. { specialize (Hl t). cbn [length] in Hl. lia. }
-      intro Hc. subst t. rewrite bt_eqb_refl in Et. discriminate.
-Qed.
+Lemma prune_loaded_is_all : forall files, flat_map prune_loaded_packs files = all_packs files.
+Proof. intro files. unfold all_packs. apply flat_map_ext. intro f. reflexivity. Qed.
 
-Lemma collect_defined : forall m files, no_overflow files = true -> exists c, collect m files = Some c.
-Proof.
-  intros m files H. unfold no_overflow in H. apply andb_prop in H. destruct H as (H1 & H2).
-  unfold collect. rewrite collect_is_extend, loaded_is_unmarked.
-  apply extend_defined; [assumption|].
-  intro t. destruct t, m; cbn; lia.
-Qed.
+Lemma release_sz : forall p s, pack_size_release p = Some s -> s = size_release p.
+Proof. unfold pack_size_release. intros p s H. inv H. apply pack_size_wrapping_char. Qed.
+Lemma release_fits : forall p, (fun _ : ipack => true) p = true <-> exists s, pack_size_release p = Some s.
+Proof. intro p. split; [intros _; eexists; reflexivity|reflexivity]. Qed.
 
 (* membership in entries_of *)
 Lemma in_entries_of : forall qs k e, In e (entries_of k qs) <->
